@@ -67,6 +67,9 @@ def benign(only=None):
                 r = subprocess.run([os.path.join(here, "check"), q], capture_output=True, text=True, env=env)
                 res.append(f"{q}={r.returncode}")
                 ok = ok and r.returncode == 0
+                if r.returncode != 0:
+                    why = [l for l in (r.stdout + r.stderr).splitlines() if l.startswith(("VIOLATION", "UNDECIDED", "ENGINE", "  failed", "Traceback"))][:3]
+                    res.append("[" + " | ".join(w[:160] for w in why) + "]")
             print(m["id"], " ".join(res))
         finally:
             shutil.rmtree(tmp, ignore_errors=True)
